@@ -92,6 +92,9 @@ def havoc(V, st, names, heap_keys, has_yield, before):
     if has_yield:
         yt = V.c.yields
         st.ghost['yielded'] = fresh(SeqT(yt), 'yielded')
+        if V.c.yield_key:
+            kt = V.ykey_type()
+            st.ghost['ykeys'] = fresh(SetT(kt), 'ykeys')
 
 
 def has_yield(nodes):
@@ -226,7 +229,14 @@ def for_invariant(V, s, st, it, enum, start, inv, key):
         y = st_.ghost.get('yielded')
         if y is None and V.c.yields is not None:
             y = SV(SeqT(V.c.yields), z3.Empty(sort_of(SeqT(V.c.yields))))
-        return {'YIELDED': y} if y is not None else {}
+        out = {'YIELDED': y} if y is not None else {}
+        if V.c.yield_key:
+            ks = st_.ghost.get('ykeys')
+            if ks is None:
+                kt = V.ykey_type()
+                ks = SV(SetT(kt), z3.K(sort_of(kt), False))
+            out['YKEYS'] = ks
+        return out
 
     # inv-init
     for e in inv:
